@@ -189,6 +189,7 @@ pub fn perr_kind(k: &ParseErrorKind) -> &'static str {
         ParseErrorKind::InvalidIncludeFile(_) => "invalidIncludeFile",
         ParseErrorKind::EmptyIncludeFile(_) => "emptyIncludeFile",
         ParseErrorKind::FileNotFound => "fileNotFound",
+        ParseErrorKind::ReadFile(_) => "readFile",
         _ => "unknownKind",
     }
 }
